@@ -43,6 +43,11 @@ class Ctx:
         fn = fn or enclosing_function(expr)
         return self.locs(fn).inline(expr, expr.lineno) if fn is not None else expr
 
+    def scope(self):
+        """The bus itself and every file that names the uros module: only there do `core`, Param, Subscriber,
+        Publisher and the registry attribute names mean the simulation bus."""
+        return [(rel, sf) for rel, sf in sorted(self.fe.files.items()) if rel in (UROS, MSGS) or "uros" in sf.text]
+
     def where(self, rel, node):
         return (rel, getattr(node, "lineno", 0))
 
@@ -92,6 +97,8 @@ def ctor_field(cx, rel, cls, attr, param, rule):
             and enclosing_function(b) is init and param in params_of(init)]
     if len(binds) == 1 and good and id(good[0]) in cx.flow(init).exit_done():
         cx.rep.ok(rule, inst, fact={"assignment": unp(good[0])})
+    elif len(binds) == 1 and isinstance(binds[0], ast.Assign) and not isinstance(binds[0].value, (ast.Name, ast.Constant)):
+        cx.rep.incomplete(rule, inst, "cannot relate `%s` to the constructor argument" % unp(binds[0]), where=cx.where(rel, binds[0]))
     else:
         bad = [b for b in binds if b not in good] or binds
         cx.rep.fail(rule, inst, "self.%s must be bound once, unconditionally, in %s.__init__ to the parameter `%s`; found: %s"
@@ -180,7 +187,9 @@ def foreach_sites(cx, fn, meth):
                         continue
                     site = Site(n, g.target.id, cx.inl(g.iter, fn), calls[0], ev)
                     claimed.update(id(c) for c in calls)
-                    if not isinstance(n, ast.ListComp):
+                    if isinstance(n, ast.GeneratorExp) and isinstance(n._parent, ast.Expr):
+                        site.problems.append(("the generator expression is never consumed: no callback runs", n))
+                    elif not isinstance(n, ast.ListComp):
                         site.unknown.append(("%s is lazy or unordered, not a list comprehension" % type(n).__name__, n))
                     if len(n.generators) != 1 or g.is_async:
                         site.unknown.append(("more than one generator clause", n))
@@ -236,7 +245,7 @@ def rule_publish(cx):
               "; ".join(m for m, _ in site.problems), where=cx.where(rel, site.problems[0][1] if site.problems else site.node))
     # what is iterated
     base, why, bad = strip_iter(site.iter)
-    reg_text = key_text = None
+    reg_text, key_text = "self.core._subscribers", "self.topic"
     if base is None:
         rep.fail(R_F, P + "iterates the whole list of self.topic", why, where=cx.where(rel, site.node))
     else:
@@ -249,8 +258,7 @@ def rule_publish(cx):
         if reg is None or not (isinstance(reg, ast.Attribute) and reg.attr == "_subscribers"):
             rep.incomplete(R_F, P + "iterates the whole list of self.topic", "cannot relate the iterated expression %s to core._subscribers" % unp(base), where=cx.where(rel, site.node))
         else:
-            reg_text, key_text = unp(reg), unp(key)
-            rep.check(R_F, P + "iterates the whole list of self.topic", is_self_attr(reg.value, "core") and key_text == "self.topic",
+            rep.check(R_F, P + "iterates the whole list of self.topic", unp(reg) == reg_text and unp(key) == key_text,
                       "the fan-out iterates %s, not self.core._subscribers[self.topic]" % unp(base), where=cx.where(rel, site.node),
                       fact={"iterated": unp(site.iter)})
     # what is passed
@@ -271,7 +279,7 @@ def rule_publish(cx):
             if f.pol:
                 tfact = f
             known.append(f)
-        elif reg_text and is_membership(cnd, reg_text, key_text):
+        elif is_membership(cnd, reg_text, key_text):
             known.append(f)
             if f.pol != isinstance(cnd.ops[0], ast.In):
                 rep.fail(R_F, P + "delivers whenever subscribers exist", "the fan-out only runs when %s" % f.text(), where=cx.where(rel, f.stmt))
@@ -282,7 +290,7 @@ def rule_publish(cx):
     for node, facts, done in flow.exits:
         if id(site.event.node) in done:
             continue
-        no_subs = any(reg_text and is_membership(f.cond, reg_text, key_text) and f.pol != isinstance(f.cond.ops[0], ast.In) for f in facts)
+        no_subs = any(is_membership(f.cond, reg_text, key_text) and f.pol != isinstance(f.cond.ops[0], ast.In) for f in facts)
         if not no_subs:
             skipped.append((node, facts))
     rep.check(R_F, P + "delivers whenever subscribers exist", not skipped,
@@ -319,10 +327,10 @@ def classify_use(cx, node, level, seen=None):
     if isinstance(p, ast.Attribute) and p.value is node:
         gp = p._parent
         if isinstance(gp, ast.Call) and gp.func is p:
+            if level == 0 and (p.attr == "get" or (p.attr == "setdefault" and len(gp.args) == 2 and unp(gp.args[1]) == "[]")):
+                return classify_use(cx, gp, 1, seen)     # .setdefault(k, []) never touches an existing list
             if p.attr in MUTATORS:
                 return [("write", p.attr, gp)]
-            if p.attr == "get" and level == 0:
-                return classify_use(cx, gp, 1, seen)
             if p.attr in READERS:
                 return [("read", p.attr, gp)]
             return [("unknown", "method %s" % p.attr, gp)]
@@ -357,12 +365,12 @@ def rule_registries(cx):
     rep.rule(R_W, "only Core.__init__ creates the registries; only Subscriber.__init__ appends to _subscribers[topic], only Publisher.__init__ stores into _publishers, only Core.declare_param stores into _declared_params; nothing else in the tree writes, removes, inserts or reorders; subscribers are appended exactly once, unconditionally, under the constructor's topic")
     rep.rule(R_L, "every registrar tests pub_sub_locked before it writes; only Core.__init__ (False) and Logger.__init__ (True, after subscribing) assign the lock")
     allowed = {
-        "_subscribers": {("Core.__init__", "rebind"), ("Subscriber.__init__", "setitem"), ("Subscriber.__init__", "append"), ("Subscriber.__init__", "setdefault")},
+        "_subscribers": {("Core.__init__", "rebind"), ("Subscriber.__init__", "setitem"), ("Subscriber.__init__", "append")},
         "_publishers": {("Core.__init__", "rebind"), ("Publisher.__init__", "setitem")},
         "_declared_params": {("Core.__init__", "rebind"), ("Core.declare_param", "setitem")},
     }
     writes = {}
-    for rel, sf in sorted(cx.fe.files.items()):
+    for rel, sf in cx.scope():
         for n in ast.walk(sf.tree):
             if not (isinstance(n, ast.Attribute) and n.attr in REGISTRIES):
                 continue
@@ -408,7 +416,7 @@ def rule_registries(cx):
         rep.check(R_L, "Param.__init__ tests pub_sub_locked before registering", own or lock_ok["Core.declare_param"],
                   "neither Param.__init__ nor Core.declare_param tests the lock", where=cx.where(UROS, decl[0]), fact={"own test": own})
     # who assigns the lock
-    for rel, sf in sorted(cx.fe.files.items()):
+    for rel, sf in cx.scope():
         for n in ast.walk(sf.tree):
             if isinstance(n, ast.Attribute) and n.attr == "pub_sub_locked" and isinstance(n.ctx, (ast.Store, ast.Del)):
                 q, st = qualname(n), enclosing_stmt(n)
@@ -428,7 +436,7 @@ def check_registrar(cx, cname, reg, how, writes, R_W, R_L):
     q = "%s.__init__" % cname
     fn = cx.fe.find_def(UROS, q)
     flow = cx.flow(fn)
-    ws = writes.get((reg, q, how), []) + (writes.get((reg, q, "setdefault"), []) if how == "append" else [])
+    ws = writes.get((reg, q, how), [])
     inst = "%s registers self under its topic exactly once" % q
     if len(ws) != 1:
         rep.fail(R_W, inst, "expected exactly one registration of self in core.%s, found %d" % (reg, len(ws)), where=cx.where(UROS, ws[1][1] if ws else fn))
@@ -545,7 +553,7 @@ def rule_params_core(cx):
 def param_classes(cx):
     """Classes that construct uros.Param objects -> (rel, class node, [Param(...) call nodes])."""
     out = []
-    for rel, sf in sorted(cx.fe.files.items()):
+    for rel, sf in cx.scope():
         for cls in ast.walk(sf.tree):
             if isinstance(cls, ast.ClassDef):
                 calls = [c for c in ast.walk(cls) if is_ctor_call(c, "Param") and enclosing_class(c) is cls]
@@ -836,15 +844,15 @@ def rule_logger_run(cx, cls, R):
     probs = []
     if ac.func.attr != "append" or len(ac.args) != 1:
         probs.append((ac, "rows must be added with append(row): %s" % unp(ac)))
-    elif not is_deepcopy(ac.args[0]):
-        arg = ac.args[0]
+    elif not is_deepcopy(cx.inl(ac.args[0], fn)):
+        arg = cx.inl(ac.args[0], fn)
         if unp(arg) == "self.data_latest.data":
             probs.append((ac, "the row appended is self.data_latest.data itself, not a deep copy: every row aliases the same record"))
         else:
             rep.incomplete(R, I2, "cannot tell whether %s is an independent copy of self.data_latest.data" % unp(arg), where=cx.where(rel, ac))
             return
-    elif unp(ac.args[0].args[0]) != "self.data_latest.data":
-        probs.append((ac, "the row is a copy of %s, not of self.data_latest.data" % unp(ac.args[0].args[0])))
+    elif unp(cx.inl(ac.args[0], fn).args[0]) != "self.data_latest.data":
+        probs.append((ac, "the row is a copy of %s, not of self.data_latest.data" % unp(cx.inl(ac.args[0], fn).args[0])))
     if aev.loops[-1] is not loop or aev.fact_keys() != {f.key() for f in info["body_facts"]} or info["end"] is None or id(aev.node) not in info["end"][1]:
         probs.append((ac, "the append is conditional or in a nested loop: not one row per period"))
     if id(aev.node) not in yev.done:
@@ -877,7 +885,7 @@ def rule_core_attrs(cx):
     if bases != ["simpy.Environment"]:
         rep.incomplete(R, "Core base class", "Core derives from %s; the allow-list is for simpy.Environment" % bases, where=cx.where(UROS, core))
     seen = set()
-    for rel, sf in sorted(cx.fe.files.items()):
+    for rel, sf in cx.scope():
         for n in ast.walk(sf.tree):
             if not (isinstance(n, ast.Attribute) and isinstance(n.ctx, ast.Load)):
                 continue
@@ -900,12 +908,6 @@ def rule_core_attrs(cx):
 
 # ---------------------------------------------------------------------------------------------------------
 # estimator
-
-def time_name_ok(cx, fn, expr):
-    """expr (already inlined) is <message parameter>.data['time']"""
-    ps = params_of(fn)
-    return len(ps) >= 2 and unp(expr) == "%s.data['time']" % ps[1]
-
 
 def eqs_call(flow, key):
     out = []
@@ -979,10 +981,11 @@ def rule_estimator(cx, ptable):
         else:
             ups = [e for e in stamp_updates(cx, fn, last, tkey) if id(d) in e.done and id(e.node) in pev.done]
             others = [b for b in self_assigns(cls, last[5:]) if enclosing_function(b).name != "__init__" and b not in [e.node for e in ups]]
-            rep.check(R_P, I3, bool(ups) and not others,
-                      ("%s is also assigned by `%s`" % (last, unp(others[0]) if others else "")) if ups else
-                      "`%s = <message time>` is not executed (after the step is computed) on every path to predict: the step stops being the time since the previous sample" % last,
-                      where=cx.where(rel, others[0] if ups and others else pcall))
+            if ups and others:
+                rep.incomplete(R_P, I3, "%s is also assigned by `%s`, which the rule does not model" % (last, unp(others[0])), where=cx.where(rel, others[0]))
+            else:
+                rep.check(R_P, I3, bool(ups), "`%s = <message time>` is not executed (after the step is computed) on every path to predict: the step stops being the time since the previous sample" % last,
+                          where=cx.where(rel, pcall))
     # ---- rate limits
     eps_of = {}
     for sensor, meth, key in (("accel", "imu_callback", "correct_accel"), ("mag", "mag_callback", "correct_mag")):
@@ -1053,9 +1056,10 @@ def rule_estimator(cx, ptable):
         if not same:
             rep.fail(R_R, I3, ("`%s = t` is not on exactly the paths that run the correction (it is %s)" % (A, "conditional on " + " and ".join(x.text() for x in ups[0].facts if x.key() not in ctx(cev)) if ups else "missing"))
                      if ups else "%s is never set to the message time in %s: after the first correction every message is corrected" % (A, meth), where=cx.where(rel, ups[0].node if ups else ccall))
+        elif others:
+            rep.incomplete(R_R, I3, "%s is also assigned by `%s`, which the rule does not model" % (A, unp(others[0])), where=cx.where(rel, others[0]))
         else:
-            rep.check(R_R, I3, not others, "%s is also assigned by `%s`" % (A, unp(others[0]) if others else ""), where=cx.where(rel, others[0] if others else ccall),
-                      fact={"assignment": unp(same[0].node)})
+            rep.ok(R_R, I3, fact={"assignment": unp(same[0].node)})
 
 
 # ---------------------------------------------------------------------------------------------------------
@@ -1087,7 +1091,7 @@ def rule_topics(cx):
     rep.rule(R, "every Subscriber with a literal topic has a Publisher of the same topic and message class somewhere in cyecca; every literal field name used on a message object of known class exists in that class's dtype")
     fields = msg_fields(cx)
     pubs, subs = {}, []
-    for rel, sf in sorted(cx.fe.files.items()):
+    for rel, sf in cx.scope():
         for c in ast.walk(sf.tree):
             if is_ctor_call(c, "Publisher") and len(c.args) == 3 and isinstance(c.args[1], ast.Constant):
                 pubs.setdefault(c.args[1].value, set()).add(msg_class_name(c.args[2]))
@@ -1109,7 +1113,7 @@ def rule_topics(cx):
         if cls is not None and is_self_attr(c.args[3]) and c.args[3].attr in methods_of(cls) and T in fields:
             cb_types[id(methods_of(cls)[c.args[3].attr])] = T
     seen = set()
-    for rel, sf in sorted(cx.fe.files.items()):
+    for rel, sf in cx.scope():
         if rel == MSGS:
             continue
         for n in ast.walk(sf.tree):
@@ -1186,6 +1190,13 @@ def run(w, rep, tier):
     rule_core_attrs(cx)
     rule_estimator(cx, ptable)
     rule_topics(cx)
+    # vacuity guard: decided instances confirmed by hand on the tree of 2026-10-02 (usage-count rules get ~80%)
+    for rule, n in (("C20.publish-typecheck", 1), ("C20.publish-fanout", 8), ("C20.registry-writes", 13), ("C20.registry-lock", 8),
+                    ("C20.param-broadcast", 9), ("C20.param-wiring", 11), ("C20.logger-subscribes-all", 3), ("C20.logger-row", 4),
+                    ("C20.logger-callback", 1), ("C20.core-attr-resolves", 25), ("C20.est-predict-dt", 3), ("C20.est-rate-limit", 6),
+                    ("C20.topic-types", 40)):
+        rep.floor(rule, n)
+    rep.note("scope: %s" % ", ".join(rel for rel, _ in cx.scope()))
     rep.undecided_clause("monotonicity of core.now and the actual firing times of Timeout events are properties of simpy, not of cyecca: not decided")
     rep.undecided_clause("that callbacks return (a subscriber callback that raises aborts the fan-out) and that calls do not re-assign attributes mentioned in a recorded guard are assumed")
     rep.undecided_clause("`assert` statements are counted as tests of pub_sub_locked; under python -O they vanish")
